@@ -36,7 +36,7 @@ BOUNDS = {'quick': {'start window': 'any microsecond within +-3 s of a configure
           'thorough': {'start window': 'as quick', 'observations': 'start + 2 symbolic instants (<= 2 crossings) + reconfig',
                        'configs': 'catalog, 2 blocks sharing the scheduler', 'clock jump': 'as quick'}}
 OUTSIDE = ["configured endpoints are concrete (they are dictionary keys inside Cron)", "real DST / time-zone behaviour of "
-           "datetime.now()", "runs of several days", "clock-read / wake-up latency (zero-latency virtual loop; quick and thorough)",
+           "datetime.now()", "runs of several days", "wake-up latency in the quick tier (thorough: one symbolic latency <= 1 ms applied to every wake-up, two configurations)",
            "backward clock jumps", "more than 2 blocks per scheduler"]
 STUBS = ["Cron.dtnow -> symbolic wall clock (symx/wallclock.py): base date + symbolic microseconds, reads truncated to 1 us",
          "cron.time.sleep advances the virtual clock", "virtual-time loop"]
@@ -79,6 +79,8 @@ CONFIGS = {
     'feb29': ('td', dict(dates='Feb 29'), [0], lambda d, x: (d.month, d.day) == (2, 29)),
     'weekdays': ('td', dict(weekdays='67', times='23:59:59-0:00:01'), [us(23, 59, 59), 0, us(0, 0, 1)],
                  lambda d, x: And_(d.isoweekday() in (6, 7), in_range(x, us(23, 59, 59), us(0, 0, 1)))),
+    'near-hour': ('td', dict(times='11:59:59.9995-12:00:30'), [us(11, 59, 59, 999500), us(12, 0, 30)],
+                  lambda d, x: in_range(x, us(11, 59, 59, 999500), us(12, 0, 30))),
     'nothing': ('td', dict(), [us(5)], lambda d, x: False),
     'empty-times': ('td', dict(times=()), [us(5)], lambda d, x: False),
     'only-weekdays': ('td', dict(weekdays=[1, 2, 3, 4, 5]), [0], lambda d, x: d.isoweekday() <= 5),
@@ -167,7 +169,7 @@ def observe(env, run, blk, pred, bounds, label, kind='td', extra=None):
     return tod
 
 
-def scen_timedate(env, cfg, base, utc, second_cfg=None, nobs=1, bidx=None):
+def scen_timedate(env, cfg, base, utc, second_cfg=None, nobs=1, bidx=None, latency=False):
     kind, kw, bounds, pred = CONFIGS[cfg]
     w0, b0 = window(env, 'w0', bounds, bidx=bidx)
     with Run(env, BASES[base], w0, utc) as run:
@@ -179,7 +181,12 @@ def scen_timedate(env, cfg, base, utc, second_cfg=None, nobs=1, bidx=None):
             others.append((td2, pred2, bounds2))
         gaps = [env.real(f'gap{i}', 0, 8) for i in range(nobs)]
 
+        delta = env.real('wakeup_latency', 0, 0.001) if latency else None
+
         async def main():
+            if latency:
+                # every wake-up of the event loop overshoots by a symbolic latency <= 1 ms
+                asyncio.get_running_loop().latency_hook = lambda when: when + delta
             asyncio.create_task(run.circ.run_forever())
             await run.circ.wait_init()
             t_start = observe(env, run, td, pred, bounds, 'output-at-start')
@@ -314,7 +321,8 @@ def shards(tier):
                     out.append({'name': f'timedate {cfg} base={base} utc={utc} boundary={bidx}', 'scenario': 'scen_timedate',
                                 'params': {'cfg': cfg, 'base': base, 'utc': utc, 'nobs': 1 if tier == 'quick' else 2,
                                            'bidx': bidx}, 'cost': 10})
-    pairs = (('plain', 'usec'), ('nothing', 'plain'), ('plain', 'nothing')) if tier == 'quick' else (
+    pairs = (('plain', 'usec'), ('nothing', 'plain'), ('plain', 'nothing'), ('nothing', 'near-hour')) if tier == 'quick' else (
+        ('nothing', 'near-hour'),
         ('plain', 'two-ranges'), ('two-ranges', 'plain'), ('plain', 'nothing'), ('nothing', 'wrap-midnight'),
         ('wrap-midnight', 'equal-endpoints'), ('plain', 'usec'), ('nothing', 'plain'))
     for a, b in pairs:
@@ -334,6 +342,12 @@ def shards(tier):
                     continue
                 out.append({'name': f'timespan base={base} boundary={bidx} seq={by_seq}', 'scenario': 'scen_timespan',
                             'params': {'base': base, 'bidx': bidx, 'by_seq': by_seq}, 'cost': 30})
+    if tier == 'thorough':
+        for cfg in ('plain', 'usec'):
+            for bidx in range(2):
+                out.append({'name': f'timedate {cfg} with wake-up latency boundary={bidx}', 'scenario': 'scen_timedate',
+                            'params': {'cfg': cfg, 'base': 'mid', 'utc': False, 'nobs': 1, 'bidx': bidx, 'latency': True},
+                            'cost': 50})
     for cfg in ('plain', 'nothing', 'span-empty', 'only-weekdays'):
         out.append({'name': f'clock jump {cfg}', 'scenario': 'scen_jump', 'params': {'cfg': cfg, 'base': 'mid'}, 'cost': 30})
     return out
